@@ -210,7 +210,7 @@ func (e *Engine) verifyFunc(fn *ssa.Function, fc *FuncContract, safety bool, dev
 			found := false
 			for _, b := range fn.Blocks {
 				for _, ins := range b.Instrs {
-					if c, ok := ins.(*ssa.Call); ok && fr.isAssertSite(a, c) {
+					if fr.isSiteInstr(ins) && fr.isAssertSite(a, ins) {
 						found = true
 					}
 				}
